@@ -7,6 +7,7 @@ func tuneConfig(c *Config, prop string, r *rand.Rand) {
 	switch prop {
 	case "C06":
 		c.Replicas = 3
+		c.GenesisOutgoing = r.Intn(4) == 0
 	case "C10":
 		if r.Intn(3) == 0 {
 			c.UserFunds = "1393796574908163946345982392040522594123776" // 2^140
